@@ -452,7 +452,10 @@ class C18(core.Check):
         skip = ''
         if rnd.random() < .35:
             skip = rnd.choice([re.escape(rnd.choice(pnames)), r'.*b\.tex', r'sub/.*', r'[ac]\.tex', 'nomatch',
-                               re.escape(pfx) + r'[bc]\.tex', r'\./.*1\.tex'])
+                               re.escape(pfx) + r'[bc]\.tex', r'\./.*1\.tex',
+                               # expressions that match only the beginning of some names: nothing is skipped
+                               re.escape(pfx) + 'f', re.escape(pfx) + 'f1', re.escape(pfx) + 'a', re.escape(pfx) + 'su',
+                               re.escape(pnames[0][:-2]), re.escape(pfx) + r'[a-c]', re.escape(pfx) + r'f\d'])
         d = tempfile.mkdtemp(dir=self.tmp)
         with_define = False
         skipped = {(f, g) for f in sorted(files) for g in sorted(set(files[f])) if rnd.random() < .2}
